@@ -12,7 +12,7 @@ Does not decide: invariance of the outcome under all permutations (value-level).
 from core import *
 from dataflow import *
 from cfgq import *
-import consumers
+import consumers, c07
 
 LEVEL = 'other'
 EXPLANATION = __doc__
@@ -26,6 +26,7 @@ def run(ctx):
         fs = ctx.facts(cfg)
         consumers.consumers(ctx, cfg, fs, 'S.search')
         consumers.accept_sets(ctx, cfg, fs, 'M.matcher')
+        c07.ledger_only(ctx, cfg, fs, 'I.index-opaque')
         for nm in ('take_flag', 'take_arg'):
             b = ctx.look(fs.body(consumers.CONSUMERS[nm][0]))
             # locals holding the found index
